@@ -53,7 +53,7 @@ func checkC12(c *checkCtx) int {
 	soft := "60s"
 	timeout := 6 * time.Minute
 	if c.Tier == "thorough" {
-		hot, coldRace, coldPlain, chunk = 1200000, 120000, 20000, 50
+		hot, coldRace, coldPlain, chunk = 600000, 60000, 10000, 40
 		soft = "15m"
 		timeout = 90 * time.Minute
 	}
@@ -85,8 +85,8 @@ func checkC13(c *checkCtx) int {
 	soft := "60s"
 	timeout := 6 * time.Minute
 	if c.Tier == "thorough" {
-		n = 1500000
-		soft = "25m"
+		n = 600000
+		soft = "20m"
 		timeout = 60 * time.Minute
 	}
 	t1 := time.Now()
